@@ -664,6 +664,8 @@ func genConfig(c *core.Choices, prop string) *Config {
 		cfg.BadResultRate = []int{0, 0, 0, 120}[c.Choose(4)]
 	case "C14", "C17", "C19":
 		cfg.BadResultRate = []int{0, 0, 80}[c.Choose(3)]
+	case "C18":
+		cfg.BadResultRate = []int{0, 120, 250}[c.Choose(3)]
 	}
 	if prop == "C14" || prop == "C17" || prop == "C19" || prop == "C18" {
 		genPriorNAT(c, cfg)
